@@ -79,6 +79,31 @@ GROUP = {
 """,
         }),
         ("unit", {
+            "name": "callsite:account_width", "file": F, "path": POSTING_FMT, "fn": "account_width", "no_canary": True,
+            "slice": r"let account_width = ([^;]*);", "slice_count": 1,
+            "slice_template": """fn account_width(account: &str, post_clear: &str) -> (r: usize)
+    requires width_cjk_spec(account@) + width_spec(post_clear@) <= usize::MAX,
+    ensures
+        // C19: the account is measured in display columns (East-Asian wide characters count two), plus the clear mark
+        r == width_cjk_spec(account@) + width_spec(post_clear@),   // @posting.account_measured_in_display_columns
+{
+    {EXPR}
+}""",
+            "rewrites": [("R17-free-variable", "post.account.as_undecorated().as_ref()", "account", 1)],
+        }),
+        ("unit", {
+            "name": "callsite:assertion_trailing", "file": F, "path": POSTING_FMT, "fn": "assertion_trailing", "no_canary": True,
+            "slice": r"let trailing = ([^;]*);", "slice_count": 1,
+            "slice_template": """fn assertion_trailing(balance_str: &String, alignment: usize) -> (r: usize)
+    requires alignment <= width_cjk_spec(balance_str@),
+    ensures
+        // C19: what follows the numeric part of an assertion (" CHF", " 円") is measured in display columns
+        r == width_cjk_spec(balance_str@) - alignment,   // @posting.assertion_trailing_measured_in_display_columns
+{
+    {EXPR}
+}""",
+        }),
+        ("unit", {
             "name": "callsite:balance_padding", "file": F, "path": POSTING_FMT, "fn": "balance_padding",
             "slice": r"get_column\(50\b", "slice_count": 1,
             "slice_header": "fn balance_padding(account_width: usize, trailing: usize) -> (r: usize)",
